@@ -41,7 +41,7 @@ FORMS = [('assign', '%s = 1', '(write %s)'), ('compound', '%s += 1', '(write %s)
          ('nested', '(%s = 1) = 2', '(write (write %s))'), ('ref-arg', 'wr(%s)', '%s'), ('ref-arg-nested', 'wr2(%s)', '%s')]
 
 
-def build(src, form):
+def build(src, form, place=None):
     fname, ftxt, flv = form
     stmt = ftxt % src['target']
     if 'bounded' in src['name'] and (fname.startswith('inline-if') or fname.startswith('ref-arg')):
@@ -53,8 +53,11 @@ def build(src, form):
         stmt = '%s = ms' % src['target']
     g = 'typedef struct { int a; int b; } S;\nint mg; bool mb; S ms;\nvoid wr(int &r) { r = 1; }\nvoid wr2(int &r) { wr(r); }\n' + src['gdecl'] + '\n'
     tdecl, upd, sel, tparams, sysl = '', '', '', '', 'system T;'
-    place = src['place']
-    if place == 'fun':
+    place = place or src['place']
+    if place in ('before_update', 'after_update'):
+        # the expression lists run around every update: declared in the global declarations
+        g += '%s { %s }\n' % (place, stmt)
+    elif place == 'fun':
         g += 'void h(%s) {\n %s\n %s;\n}\n' % (src['params'], src['ldecl'], stmt)
         if src['call_args']:
             upd = 'h(%s)' % src['call_args']
@@ -93,6 +96,11 @@ def check(run):
             b = build(src, form)
             if b:
                 cases.append((src, form[0], b[0], b[1], b[2]))
+            if src['place'] == 'fun' and src['gdecl']:
+                for place in ('before_update', 'after_update'):
+                    b = build(src, form, place)
+                    if b:
+                        cases.append((src, form[0] + ':' + place, b[0], b[1], b[2]))
     # template instantiation with a reference parameter (global targets only)
     for src in sources():
         if src['place'] == 'fun' and src['gdecl'] and 'bounded' not in src['name'] and 'struct-whole' not in src['name'] and 'struct' not in src['name'].split(':')[0][:6] + '':
